@@ -23,7 +23,7 @@ inductive Res (α : Type) where
   | err (cls : String) (file : String) (line : Nat)
   | panic (msg : String)
   | timeout
-deriving Repr
+deriving Repr, DecidableEq
 
 def Res.bind {α β : Type} (r : Res α) (f : α → Res β) : Res β :=
   match r with
@@ -96,7 +96,14 @@ structure FS where
   files : List (String × Bytes)
 deriving Repr
 
-def strBytes (s : String) : Bytes := s.toUTF8.toList
+/-- UTF-8 bytes of a code point (kernel-reducible, unlike `String.toUTF8`) -/
+def encodeCp (n : Nat) : Bytes :=
+  if n < 0x80 then [n.toUInt8]
+  else if n < 0x800 then [(0xC0 + n / 64).toUInt8, (0x80 + n % 64).toUInt8]
+  else if n < 0x10000 then [(0xE0 + n / 4096).toUInt8, (0x80 + n / 64 % 64).toUInt8, (0x80 + n % 64).toUInt8]
+  else [(0xF0 + n / 262144).toUInt8, (0x80 + n / 4096 % 64).toUInt8, (0x80 + n / 64 % 64).toUInt8, (0x80 + n % 64).toUInt8]
+
+def strBytes (s : String) : Bytes := s.toList.flatMap fun c => encodeCp c.toNat
 
 /-- `filepath.Match` for patterns without character classes (`*`, `?`, `\c`, literals) -/
 def globMatch : Bytes → Bytes → Bool
@@ -168,7 +175,7 @@ structure Cfg where
 structure ServerBlock where
   keys : List Bytes
   tokens : List (Bytes × List Token)      -- in order of first appearance; printed sorted
-deriving Repr
+deriving Repr, DecidableEq
 
 structure PState where
   d : Disp
@@ -179,7 +186,7 @@ structure PState where
   /-- stack of import directives being expanded (innermost first); each frame lists the sources
   spliced by one directive that are not finished yet, in order -/
   frames : List (List Active) := []
-deriving Repr
+deriving Repr, DecidableEq
 
 def errAt {α : Type} (cls : String) (d : Disp) : Res α := .err cls d.file d.line
 
